@@ -101,14 +101,14 @@ package engine
 //@ macro func RE(kb *ast.KnowledgeBase, k string) *ast.RuleEntry { return kb.RuleEntries[k] }
 
 //@ func (g *GruleEngine) ExecuteWithContext(ctx, dataCtx, knowledge) (err)
-//@   serves C03 C06 C08 C10 C14 C15 C01 C02
+//@   serves C03 C06 C08 C10 C14 C15 C01 C02 C13
 //@   opt alloc=1
 //@   requires wfEngine(g) && ctx != nil
 //@   requires 0 <= g.MaxCycle && g.MaxCycle < MaxUint64
 //@   requires knowledge != nil ==> knowledge.WorkingMemory != nil && KBInv(knowledge) && WMInv(knowledge.WorkingMemory)
-//@   requires ghostWF()
+//@   requires ghostWF() && $depth == 0 && !$inAction && treeWF()
 //@   nopanic
-//@   modifies *, @ctxghost, @evlog, $complete, $loc, $stamp, $runBegin, $runExec, $evalStamp, $evalCnt, $evalCand, $notifStamp, $execNotifStamp, $execNotifEntry, $execStamp, $actionFailed, $evalFailed, $addFailed, $sinceExec
+//@   modifies *, @actlog, @thenlog, $resetAllN, @ctxghost, @evlog, $complete, $loc, $stamp, $runBegin, $runExec, $evalStamp, $evalCnt, $evalCand, $notifStamp, $execNotifStamp, $execNotifEntry, $execStamp, $actionFailed, $evalFailed, $addFailed, $sinceExec
 //@   ghost_entry $stamp = $stamp + 1
 //@   ghost_entry $runBegin = 0
 //@   ghost_entry $runExec = 0
@@ -116,6 +116,8 @@ package engine
 //@   ghost_entry $actionFailed = false
 //@   ghost_entry $evalFailed = false
 //@   ghost_entry $addFailed = false
+// C13: remembered values are dropped once per run, in the prologue, and never between cycles
+//@   ensures[C13] resetonce: $resetAllN <= old($resetAllN) + 1
 // C06: at most MaxCycle firings
 //@   ensures[C06] budget: $runExec <= g.MaxCycle
 // C06 / C02: nil only at quiescence (every active rule evaluated and reported once in the final cycle, none a candidate) or after Complete
@@ -136,7 +138,8 @@ package engine
 //
 // outer loop `for {`
 //@   invariant@1[C06] counters: cycle == $runExec && cycle == $runBegin && cycle <= g.MaxCycle
-//@   invariant@1 ghostwf: ghostWF()
+//@   invariant@1 ghostwf: ghostWF() && $depth == 0 && !$inAction
+//@   invariant@1[C13] resetonce: $resetAllN == old($resetAllN) + 1
 //@   invariant@1[C08] fresh: $runBegin == 0 ==> memoClear(knowledge.WorkingMemory) && noneRetracted(knowledge) && knowledge.DataContext == dataCtx
 //@   invariant@1 notcomplete: $runExec > 0 ==> !$complete[dataCtx]
 //@   invariant@1 nofail: !$actionFailed && !($evalFailed && g.ReturnErrOnFailedRuleEvaluation)
@@ -150,7 +153,7 @@ package engine
 //@   invariant@2 done: forall j int :: 0 <= j && j < $i && active(RE(knowledge, $keys[j])) ==> $evalStamp[RE(knowledge, $keys[j])] == $stamp && $evalCnt[RE(knowledge, $keys[j])] == 1 && $notifStamp[RE(knowledge, $keys[j])] == $stamp
 //@   invariant@2 todo: forall j int :: $i <= j && j < $n ==> $evalStamp[RE(knowledge, $keys[j])] != $stamp && $notifStamp[RE(knowledge, $keys[j])] != $stamp
 //@   invariant@2 ghostwf: forall re Ref :: $evalStamp[re] <= $stamp && $notifStamp[re] <= $stamp
-//@   invariant@2 nofail: !($evalFailed && g.ReturnErrOnFailedRuleEvaluation)
+//@   invariant@2 nofail: !($evalFailed && g.ReturnErrOnFailedRuleEvaluation) && $depth == 0
 //@   invariant@2[C15] cancel: old($cancelled) ==> $cancelled
 //@   invariant@2[C15,C02] noctxerr: !$ctxErrSeen
 // selection scan `for idx, pr := range runnable`
@@ -166,9 +169,9 @@ package engine
 //@   serves C11 C08
 //@   requires g != nil
 //@   requires knowledge != nil ==> knowledge.WorkingMemory != nil && KBInv(knowledge) && WMInv(knowledge.WorkingMemory)
-//@   requires ghostWF()
+//@   requires ghostWF() && $depth == 0 && !$inAction && treeWF()
 //@   nopanic
-//@   modifies @memo, $exprRes, @setlog, @ctxghost, alloc, ast.BuiltInFunctions.*, ast.KnowledgeBase.DataContext, ast.RuleEntry.Retracted, $stamp, $evalStamp, $evalCnt, $evalCand, $evalFailed, $addFailed, $sinceExec
+//@   modifies @memo, $exprRes, $varRes, $atomRes, $resetAllN, @setlog, @ctxghost, alloc, ast.BuiltInFunctions.*, ast.KnowledgeBase.DataContext, ast.RuleEntry.Retracted, $stamp, $evalStamp, $evalCnt, $evalCand, $evalFailed, $addFailed, $sinceExec
 //@   ghost_entry $stamp = $stamp + 1
 //@   ghost_entry $evalFailed = false
 //@   ensures[C11] members: err == nil ==> (forall k int :: 0 <= k && k < len(res) ==> res[k] != nil && candNow(res[k]) && !res[k].Deleted)
@@ -184,4 +187,4 @@ package engine
 //@   invariant@1 done: forall j int :: 0 <= j && j < $i && !RE(knowledge, $keys[j]).Deleted ==> $evalStamp[RE(knowledge, $keys[j])] == $stamp && $evalCnt[RE(knowledge, $keys[j])] == 1
 //@   invariant@1 todo: forall j int :: $i <= j && j < $n ==> $evalStamp[RE(knowledge, $keys[j])] != $stamp
 //@   invariant@1 ghostwf: forall re Ref :: $evalStamp[re] <= $stamp
-//@   invariant@1 nofail: !($evalFailed && g.ReturnErrOnFailedRuleEvaluation)
+//@   invariant@1 nofail: !($evalFailed && g.ReturnErrOnFailedRuleEvaluation) && $depth == 0
